@@ -206,7 +206,7 @@ def c_obs(o):
 # ---------------------------------------------------------------- part A: value sets -----
 def part_valuesets(ctx, ct, jobs):
     rng = ctx.rng
-    n = ctx.pick(450, 8000)
+    n = ctx.pick(700, 10000)
     cases, exprs, steps = [], [], []
     corpus = load_corpus("expr")
     for i in range(n):
@@ -250,7 +250,7 @@ def part_valuesets(ctx, ct, jobs):
         "corr:single add/union step from the actual state agrees with model", False, "corr-shard", scases[i])))
 
     # ---- is_disjoint on pairs
-    m = ctx.pick(300, 6000)
+    m = ctx.pick(500, 8000)
     dcases, dmeta = [], []
     inverted_wrong = 0
     for i in range(m):
@@ -309,14 +309,17 @@ def gen_table(rng, catch_all_p):
 def gen_assignment(rng, T, keys=None):
     """partial assignment; mostly values some column allows, so that filters are non-trivial"""
     d = OrderedDict()
-    keys = [k for k in range(NKEYS) if rng.random() < 0.4] if keys is None else keys
-    rng.shuffle(keys)
     col = rng.choice(T) if T else {}
+    if keys is None:
+        keys = [k for k in range(NKEYS) if rng.random() < 0.4]
+    elif keys == "column":        # mostly the keys the chosen column has (so that sequences are often accepted)
+        keys = [k for k in range(NKEYS) if rng.random() < (0.75 if k in col else 0.08)]
+    rng.shuffle(keys)
     for k in keys:
         den = denotation(col[k]) if k in col else set()
-        if den and rng.random() < 0.8:
+        if den and rng.random() < 0.92:
             d[k] = rng.choice(sorted(den))
-        elif den is None and rng.random() < 0.8:
+        elif den is None and rng.random() < 0.92:
             d[k] = rng.randrange(0, N + 1)
         else:
             d[k] = gen_value(rng)
@@ -348,7 +351,7 @@ def run_level_check(ct, asr, VNA, T, kvs):
 
 def part_tables(ctx, ct, asr, VNA, jobs):
     rng = ctx.rng
-    n = ctx.pick(300, 6000)
+    n = ctx.pick(500, 8000)
     tcases, lcases, tmeta, lmeta = [], [], [], []
     repeated_stricter = 0
     corpus = load_corpus("table")
@@ -398,8 +401,7 @@ def part_tables(ctx, ct, asr, VNA, jobs):
                     break
         # ---- the validator's one-at-a-time check
         if kvs is None:
-            seqkeys = [kk for kk in range(NKEYS) if rng.random() < 0.7]
-            seq = gen_assignment(rng, Te, seqkeys)
+            seq = gen_assignment(rng, Te, "column" if rng.random() < 0.8 else [kk for kk in range(NKEYS) if rng.random() < 0.7])
             kvs = list(seq.items())
             if i % 3 == 2 and kvs:          # repeated keys, as on a second sequence header / picture
                 extra = gen_assignment(rng, Te, [kk for kk, _ in kvs if rng.random() < 0.6])
@@ -643,7 +645,7 @@ def check_csv_case(ctx, ct, rows, names, table, inp, universe):
 
 def part_csv(ctx, ct, jobs):
     rng = ctx.rng
-    n = ctx.pick(150, 3000)
+    n = ctx.pick(250, 4000)
     cases, meta = [], []
     path = os.path.join(ctx.workdir, "table.csv")
     corpus = load_corpus("csv")
@@ -824,6 +826,16 @@ def part_witnesses(ctx, ct, asr, VNA):
 
 
 # ---------------------------------------------------------------- entry points ------------
+CASE_TYPES = {   # explicit types: a shard must type-check whatever the observations are (e.g. only `Some []`)
+    "check_expr": "vexpr * list Z * bool * obs_vset",
+    "check_step": "vset * step_op * vset",
+    "check_disjoint": "vexpr * vexpr * vset * vset * bool * bool * bool",
+    "check_table": "table * assignment * key * vset * list Z * bool * vset * vset",
+    "check_level": "table * list (key * Z) * option assignment * Z",
+    "check_csv": "list row * table",
+}
+
+
 def cap_violations(ctx, per_key=3):
     """report at most `per_key` failing inputs per failure class"""
     orig, seen = ctx.violation, {}
@@ -857,7 +869,7 @@ def run(ctx):
     import concurrent.futures
     imports = ["Model.ValueSet", "Model.ConstraintTable", "Corr.C17"]
     with concurrent.futures.ThreadPoolExecutor(max_workers=len(jobs)) as ex:
-        futs = [(j, ex.submit(ctx.coq_check_cases, j[0], imports, j[1], j[2], None, j[3])) for j in jobs]
+        futs = [(j, ex.submit(ctx.coq_check_cases, j[0], imports, j[1], j[2], CASE_TYPES[j[1]], j[3])) for j in jobs]
         for j, f in futs:
             for i in (f.result() or [])[:5]:
                 j[4](i)
